@@ -179,3 +179,116 @@ func compareContainerModel(rep *Report, pool *DriverPool, c interface{}, api str
 		rep.Violate("model-mismatch", "", "container model (coq/RModel/Containers.v) vs implementation: "+diff, c)
 	}
 }
+
+// ---- the engine model (coq/RModel/Engine.v erun_obs): a faithful model of the pure-Go decoder,
+// bufio.Reader and Read/step: at acceleration level 0 every Read call must return exactly the number
+// of bytes and the kind of result the model computes, and the source must be consumed identically ----
+
+func engineApplies(api, ctor string, sp SrcSpec, dict []byte) bool {
+	if api != "flate" || ctor != "new" || dict != nil || sp.Kind != "bufio" {
+		return false
+	}
+	if sp.Term != "eof" && sp.Term != "err" {
+		return false // the model's source never returns data together with an error
+	}
+	return buildName == "noasm" || VerifLevel() == 0
+}
+
+func compareEngine(rep *Report, pool *DriverPool, c interface{}, stream []byte, sp SrcSpec, o *RObs) {
+	if pool == nil || o.Panic != "" || o.Hang || o.CtorErr != "" || len(o.ReadLog) == 0 || len(o.ReadLog) >= 60000 || len(o.SrcLog) >= 200000 {
+		return
+	}
+	if modelTier != "thorough" {
+		cost := len(o.Bytes) + 40*len(o.ReadLog) + 20*len(o.SrcLog)
+		if cost > 120000 {
+			rep.Count("engine:skipped-too-large")
+			return
+		}
+	}
+	delivered := stream
+	if sp.Term == "err" && sp.After >= 0 && sp.After < len(stream) {
+		delivered = stream[:sp.After]
+	}
+	ints := func(xs []int) string {
+		if len(xs) == 0 {
+			return "-"
+		}
+		var b strings.Builder
+		for i, x := range xs {
+			if i > 0 {
+				b.WriteByte(',')
+			}
+			b.WriteString(strconv.Itoa(x))
+		}
+		return b.String()
+	}
+	reads := make([]int, len(o.ReadLog))
+	for i, r := range o.ReadLog {
+		reads[i] = r[0]
+	}
+	bs := sp.Buf
+	if bs < 16 {
+		bs = 16
+	}
+	ans, err := pool.Ask(fmt.Sprintf("E %d %s %s %s %s", bs, ints(o.SrcLog), sp.Term, ints(reads), hexs(delivered)))
+	if err != nil {
+		rep.Note("engine driver error: " + err.Error())
+		return
+	}
+	f := strings.Split(ans, " ")
+	if len(f) != 4 || f[0] != "E" {
+		rep.Note("engine driver answered " + trunc(ans, 200))
+		return
+	}
+	rep.mu.Lock()
+	rep.ModelCases++
+	rep.mu.Unlock()
+	rep.Count("engine:compared")
+	var mreads [][2]int
+	if f[2] != "-" {
+		for _, x := range strings.Split(f[2], ",") {
+			var n, code int
+			fmt.Sscanf(x, "%d:%d", &n, &code)
+			mreads = append(mreads, [2]int{n, code})
+		}
+	}
+	kinds := map[string]int{"EOF": 1, "UEOF": 2, "CORRUPT": 3}
+	want := kinds[o.Err]
+	if o.ErrIsSrc {
+		want = 4
+	}
+	diff := ""
+	switch {
+	case len(mreads) != len(o.ReadLog):
+		diff = fmt.Sprintf("the model needs %d Read calls, the implementation made %d", len(mreads), len(o.ReadLog))
+	case !bytes.Equal(unhex(f[3]), o.Bytes):
+		diff = fmt.Sprintf("bytes differ at offset %d (model %d bytes, implementation %d)", firstDiff(unhex(f[3]), o.Bytes), len(unhex(f[3])), len(o.Bytes))
+	default:
+		for i := range mreads {
+			if mreads[i][0] != o.ReadLog[i][1] {
+				diff = fmt.Sprintf("Read call %d (len %d): model returns %d bytes, implementation %d", i, o.ReadLog[i][0], mreads[i][0], o.ReadLog[i][1])
+				break
+			}
+			if i < len(mreads)-1 && mreads[i][1] != 0 {
+				diff = fmt.Sprintf("Read call %d: the model ends with result code %d, the implementation continued", i, mreads[i][1])
+				break
+			}
+		}
+		if diff == "" && want != 0 && mreads[len(mreads)-1][1] != want {
+			diff = fmt.Sprintf("final result: model code %d, implementation %s", mreads[len(mreads)-1][1], o.Err)
+		}
+	}
+	if diff == "" && o.LeftKnown && (o.Err == "EOF") {
+		var cons int
+		fmt.Sscanf(f[1], "%d", &cons)
+		if cons != len(delivered)-len(o.Left) {
+			diff = fmt.Sprintf("source bytes consumed: model %d, implementation %d", cons, len(delivered)-len(o.Left))
+		}
+	}
+	if diff != "" {
+		rep.mu.Lock()
+		rep.ModelDiffs++
+		rep.mu.Unlock()
+		rep.Violate("model-mismatch", "", "engine model (coq/RModel/Engine.v erun_obs) vs implementation: "+diff, c)
+	}
+}
